@@ -30,7 +30,7 @@ CFG = dict(
     engines=[dict(harness="validation", driver="m_validation", args=["-mode", "c08"], case_delim="reset",
                   n_quick=200, n_thorough=4000, thorough_seeds=2, n_search=600, search_seeds=3),
              # byte-level SSZ decoders of the validation path: the real decoders vs the Lean model of the generated code, panic oracle
-             dict(harness="ssz", driver="m_ssz", n_quick=6000, n_thorough=300000, thorough_seeds=3, n_search=60000, search_seeds=2)],
+             dict(harness="ssz", driver="m_ssz", n_quick=6000, n_thorough=120000, thorough_seeds=2, n_search=60000, search_seeds=2)],
     rule="per case: a fresh real validator, a prefix of honest messages captured from real multi-operator QBFT runs (accepted), then structurally valid consensus / "
          "partial-signature messages whose every field is drawn from extreme sets (0, 1, 2^31, 2^32, 2^62, 2^63-1, 2^63, 2^64-1, near-current), known / unknown / "
          "liquidated / metadata-less / exited / pending validators, invalid keys, all roles incl. invalid, clocks from 1969 to the int64 limit; direct kernel ops "
